@@ -57,6 +57,7 @@ def run(ctx):
         from .. import named
         named.monitor(ctx, ['attitude.sim:measure_accel', 'attitude.sim:measure_gyro', 'attitude.sim:measure_mag', 'attitude.sim:simulate', 'attitude.sim:get_state', 'attitude.sim:rotation_error'], ctx.rng("named"))
         ctx.require("call_by_argument_name", "(by-name calls never evaluated)")
+        named.derivation_history(ctx, ['attitude.sim'], ctx.rng("named2"))
     with contextlib.redirect_stdout(io.StringIO()):
         from cyecca.estimate.attitude import launch
         import cyecca.sim.uros as uros
